@@ -168,12 +168,15 @@ def rebalance_seq(c):
         if persistent is not None:
             _, sizer, pcm = persistent
             if c.get('single_signal') is None:
-                pcm.alpha_model = FixedSignalsAlphaModel(dict((a, w) for a, w in r['alpha']))
+                pcm.alpha_model = None if r.get('no_alpha') else FixedSignalsAlphaModel(dict((a, w) for a, w in r['alpha']))
         else:
             sizer = mk_seq_sizer()
             pcm = PortfolioConstructionModel(broker, 'p', StaticUniverse(list(r['universe'])), sizer,
                                              FixedWeightPortfolioOptimiser(),
-                                             alpha_model=FixedSignalsAlphaModel(dict((a, w) for a, w in r['alpha'])))
+                                             alpha_model=(None if r.get('no_alpha') else
+                                                          FixedSignalsAlphaModel(dict((a, w) for a, w in r['alpha']))))
+        # a risk model that returns the weights it is given must change nothing
+        pcm.risk_model = (lambda dt_, w_: w_) if r.get('risk_identity') else None
         stats = {'target_allocations': []}
         try:
             orders = pcm(t, stats=stats)
